@@ -457,11 +457,12 @@ def h13(rep, w, prop='C12'):
 
 
 def h14(rep, w):
-    """two tuples are equal when they have the same elements: the comparison is the element-wise comparison of the two element vectors, as std
-    defines it for Vec / slices (lengths first, then pairwise ==). A hand-written walk (a work list that compares lengths at the top level
-    only) makes `((1,2),"k") == ((1,2,3),"k")`, while the hash stays structural: equal keys, different buckets."""
-    r = rep.rule('H14', 'tuple equality is decided by the equality of the two element vectors (std\'s Vec / slice ==)', floor=1)
-    import roles
+    """two tuples are equal when they have the same elements - which includes having the same number of them, at every level of nesting. The
+    comparison is either std's own (Vec / slice ==, Iterator::eq: lengths are part of it), or a hand-written walk; a hand-written walk pairs
+    the elements with zip, which stops silently at the shorter side, so each zip of two element sequences has to come after a comparison of the
+    lengths of those same two sequences. (A work list that compares lengths at the top level only makes `((1,2),"k") == ((1,2,3),"k")`, while
+    the hash stays structural: equal keys, different buckets.)"""
+    r = rep.rule('H14', 'tuple equality compares lengths wherever it pairs elements (std\'s Vec / slice == or a length test before each zip)', floor=1)
     f = None
     for p_, g in w.yarel.fns.items():
         if p_.endswith('::eq') and 'ObjTuple as std::cmp::PartialEq' in p_ and 'Gc<' not in p_:
@@ -469,16 +470,63 @@ def h14(rep, w):
     if f is None:
         raise Broken('C12', 'anchor', 'PartialEq for ObjTuple not found')
     org = origins(f)
-    roots = org.get(0, ())
-    ok = False
+    ITEM = ('@next', '@next_back', '@last', '@pop', '@first', '@pop_back', '@pop_front', '@remove', '@swap_remove')
+
+    def sig(pl):
+        out = set()
+        if pl is None:
+            return out
+        for q in org.get(pl['l'], ()) or {(('local', pl['l']),)}:
+            root = q[0] if q[0][0] != 'call' else ('call', q[0][1])
+            out.add((root,) + tuple(t for t in q[1:] if isinstance(t, str) and (not t.startswith('@') or t in ITEM) and not t.startswith('#') and not t.startswith('as ')))
+        return out
+    std_eq = False
+    for bi, t in f.calls():
+        n = callee_name(t) or ''
+        if ('PartialEq' in n and ('Vec' in n or '[' in n or 'slice' in n)) or strip_generics(n).endswith(('Iterator::eq', '::eq_by')):
+            if any(q[0][0] == 'call' and q[0][1] == bi for q in org.get(0, ())):
+                std_eq = True
+    # length comparisons: a binary comparison both of whose sides come from len() calls
+    lens = {}
+    for bi, t in f.calls():
+        n = strip_generics(callee_name(t) or '')
+        if n.rsplit('::', 1)[-1] == 'len' and t['args']:
+            lens[bi] = sig(op_place(t['args'][0]))
+    compared = []
+    for bi in f.normal_blocks():
+        for s_ in f.blocks[bi]['s']:
+            rr = s_.get('r', {})
+            if rr.get('rv') == 'bin' and rr['op'] in ('Eq', 'Ne', 'Lt', 'Le', 'Gt', 'Ge'):
+                sides = []
+                for o in (rr['a'], rr['b']):
+                    pl = op_place(o)
+                    got = set()
+                    if pl is not None:
+                        for q in org.get(pl['l'], ()):
+                            if q[0][0] == 'call' and q[0][1] in lens:
+                                got |= lens[q[0][1]]
+                    sides.append(got)
+                if sides[0] and sides[1]:
+                    compared.append((bi, sides[0], sides[1]))
+    dom = f.dominators()
+    zips = 0
     bad = []
-    for q in roots:
-        if q[0][0] == 'call' and 'PartialEq' in q[0][2] and ('Vec' in q[0][2] or '[' in q[0][2] or 'slice' in q[0][2]):
-            ok = True
-        elif q[0][0] == 'const':
-            continue          # the identity shortcut answers `true`
-        else:
-            bad.append(q[0][2].rsplit('::', 1)[-1] if q[0][0] == 'call' else str(q[0]))
-    r.check(ok and not bad, 'ObjTuple::eq is elements == elements',
-            'ObjTuple::eq does not answer with the equality of the two element vectors (its answer comes from %s): tuples of different shape can compare equal, or equal ones unequal'
-            % (sorted(set(bad)) or 'no vector comparison'), f.loc())
+    for bi, t in f.calls():
+        n = strip_generics(callee_name(t) or '')
+        if n.rsplit('::', 1)[-1] == 'zip' and len(t['args']) == 2:
+            zips += 1
+            a, b = sig(op_place(t['args'][0])), sig(op_place(t['args'][1]))
+            ok = any(cb in dom.get(bi, ()) and ((a & x and b & y) or (a & y and b & x)) for cb, x, y in compared)
+            if not ok:
+                bad.append(f.loc(t.get('sp')))
+    if std_eq and not zips:
+        r.check(True, 'ObjTuple::eq compares lengths wherever it pairs elements', '', f.loc())
+    elif zips:
+        r.check(not bad, 'ObjTuple::eq compares lengths wherever it pairs elements',
+                'ObjTuple::eq pairs the elements of two sequences with zip (which stops at the shorter one) without having compared the lengths of those two '
+                'sequences first: tuples of different shape compare equal while their hashes differ', bad[0] if bad else f.loc())
+    else:
+        r.check(bool(compared), 'ObjTuple::eq compares lengths wherever it pairs elements',
+                'ObjTuple::eq neither uses the vector comparison of std nor compares the two lengths: tuples of different length can compare equal', f.loc())
+    r.note('ObjTuple::eq: std vector equality %s, zip walks %d, length comparisons %d' % (std_eq, zips, len(compared)))
+
